@@ -7,6 +7,7 @@ import H264.SpsExact
 import H264.PpsExact
 import H264.SpsRangesAll
 import H264.SeiScratch
+import H264.SmallProofC17
 /-! # C17 — Parsing a partially buffered NAL never contradicts parsing the complete NAL
 
 `Mono p`: on every truncated, still-incomplete view (`fin = wouldBlock`, bits a prefix) the parser `p` either fails
@@ -74,5 +75,12 @@ theorem sei_reader_independent_of_scratch (r : Sei.Reader) (s₁ s₂ : List UIn
     (Sei.nextS r s₁).1 = (Sei.nextS r s₂).1 ∧ (Sei.nextS r s₁).2.1 = (Sei.nextS r s₂).2.1 := Sei.scratch_irrelevant r s₁ s₂
 theorem sei_reader_with_scratch_is_model (r : Sei.Reader) (scratch : List UInt8) :
     ((Sei.nextS r scratch).1, (Sei.nextS r scratch).2.1) = Sei.next r := Sei.nextS_eq_next r scratch
+
+/-- **model = real code on every prefix, by proof**: an SPS, a PPS, a P-slice and a two-message SEI NAL unit (the bytes are part of
+this run's graph), each presented as every proper prefix (an incomplete NAL) and complete: the model parsers over the model byte
+reader (`NalSrc.srcOfNal`, the whole model stack evaluated in the kernel) block, accept — with the same id, frame_num or number of
+messages delivered — or refuse exactly where the real parsers did -/
+theorem model_prefix_outcomes_reproduce_code :
+    SmallProof.prefixInputs.map (fun x => SmallProof.prefixRow x.1 x.2) = Generated.prefixRows := SmallProof.prefixes_model_eq_code
 
 end C17
